@@ -20,15 +20,6 @@ Definition valid (k : fskind) (cb : bool) (stt : lstate) : bool :=
   | LIterated n j => (match k with KScandir => true | _ => false end) && (j <=? n + 1)%nat
   end.
 
-(* uv__iou_fs_statx parked its struct statx in req->ptr, the completion said
-   -EOPNOTSUPP, uv__fs_post ran uv__fs_work, which succeeded and overwrote
-   req->ptr with &req->statbuf *)
-Definition statx_fallback_ok (k : fskind) (stt : lstate) : bool :=
-  match k, stt with
-  | (KStat | KFstat), LDoneRing true true _ => true
-  | _, _ => false
-  end.
-
 Definition has_entries (k : fskind) : bool :=
   match k with KScandir | KReaddir => true | _ => false end.
 
@@ -54,23 +45,29 @@ Definition cleaned (k : fskind) (cb big : bool) (stt : lstate) : Prop :=
    twice or freed without being owned, and all four pointers are NULL. *)
 Theorem cleanup_releases_all :
   forall k cb big stt,
-  has_entries k = false -> valid k cb stt = true -> statx_fallback_ok k stt = false ->
+  has_entries k = false -> valid k cb stt = true ->
   cleaned k cb big stt.
 Proof.
-  intros k cb big stt He Hv Hs. unfold cleaned, null_req.
+  intros k cb big stt He Hv. unfold cleaned, null_req.
   destruct k; try discriminate He;
     destruct cb; destruct big;
     destruct stt as [| |ok n|ok uns n|n j]; try destruct ok; try destruct uns;
-    simpl in Hv, Hs; try discriminate;
+    simpl in Hv; try discriminate;
     cbn; repeat split; reflexivity.
 Qed.
 
-(* The excluded state leaks the struct statx. *)
-Theorem cleanup_statx_fallback_leaks :
+(* History (before e5b94ea): the -EOPNOTSUPP re-post went straight to
+   uv__fs_work, which overwrote req->ptr on success: the struct statx leaked. *)
+Definition old_ring_finish_unsupported (q : lreq) (ok : bool) (n : nat) (h : heap) :=
+  work_effect q ok n h.
+
+Theorem old_statx_fallback_leaked :
   forall n,
-  let '(q, h) := reach KStat true false (LDoneRing true true n) (h0_of KStat) in
-  let '(q1, h1) := req_cleanup q h in
-  live h1 = [BkStatx].
+  let '(q, h) := req_init KStat true false (h0_of KStat) in
+  let '(q1, h1) := ring_submit q h in
+  let '(q2, h2) := old_ring_finish_unsupported q1 true n h1 in
+  let '(q3, h3) := req_cleanup q2 h2 in
+  live h3 = [BkStatx].
 Proof. intros n. reflexivity. Qed.
 
 (* scandir / readdir: states without live entries, any n *)
